@@ -211,7 +211,7 @@ def _nm(h, N, adaptive):
 
 for _N in (1, 2):
     for _ad in (False, True):
-        contract('C08/NM._Step/N=%d,%s' % (_N, 'adaptive' if _ad else 'standard'), ['C08', 'C01', 'C03', 'C04', 'C06'],
+        contract('C08/NM._Step/N=%d,%s' % (_N, 'adaptive' if _ad else 'standard'), ['C08', 'C01', 'C03', 'C04', 'C06', 'C02'],
                  SO + '::NelderMeadSimplexSolver._Step', native=False,
                  note='fixed dimension N=%d; all simplices, energies, cost functions; constraints identity or a general '
                       'idempotent map' % _N)(lambda h, n=_N, a=_ad: _nm(h, n, a))
